@@ -1,7 +1,7 @@
 """
 Regenerates lean/PedalModel/Gen/SandboxIOGen.lean from the tree under test (C15).
 
-Three facts are translated from pedal/sandbox/sandbox.py; each is READ from the AST (primary) and MEASURED on a
+Four facts are translated from pedal/sandbox/sandbox.py; each is READ from the AST (primary) and MEASURED on a
 fresh sandbox through the public API (cross-check, and fallback where the reading ends in `unknown`):
 
   * the condition under which `Sandbox.append_output` touches the line view, as a boolean expression
@@ -22,6 +22,12 @@ fresh sandbox through the public API (cross-check, and fallback where the readin
     and private helper methods to its leaves: a call of the installed callable, `<queue>.pop(i)` / `<queue>[i]` +
     `del <queue>[i]`, a string constant (also through class / module level constants).  One kind of pop and one
     constant must remain and no leaf may be left unexplained; otherwise `unknown`.
+  * WHEN the installed input() resolves the queue (`queueLookup`): `atCall` if it evaluates `self.inputs` (directly, via a
+    per-call alias or an inlined helper method) each time it runs, `atCreation` if it uses a name or default argument
+    that the enclosing factory bound to `self.inputs` once.  Student code can keep a reference to `input` beyond the
+    execution that installed it (`ask = input`, a helper module, a generator); only with `atCall` does such a reference
+    see the queue as it is when it is called.  Obligation `lookup_at_call`.  Measured with kept references + the queue
+    rebound (clear_input / set_input(None) / callable then None) + new values queued.
 
 Measuring (probe): histories run through harness/sandboxio_common.run_real (pedal.sandbox.commands on a fresh
 sandbox): whether an execution (silent / writing, after a silent / writing one, several texts incl. whitespace-only)
@@ -664,6 +670,8 @@ class TrackerReader:
     def __init__(self, src):
         self.src = src
         self.notes = []
+        self._cands = []
+        self._inlined = []
 
     # ---- locate the function that is installed as `input`
     def locate(self):
@@ -876,9 +884,61 @@ class TrackerReader:
                     ends.append(self._index_end(sub.value.args, fn))
         return ends
 
+    def read_lookup(self):
+        """WHEN does the installed input() resolve the sandbox's queue: "atCall" (it evaluates `self.inputs` - directly,
+        through a per-call local alias or an inlined helper method - each time it is called), "atCreation" (it uses a
+        name / default argument that the enclosing factory bound to `self.inputs` once), else "unknown".
+        Must be called after read() (uses the located candidates and the inlined helpers)."""
+        cands = self._cands
+        if not cands:
+            return "unknown"
+        at_call = at_creation = False
+
+        def mentions_queue(nodes):
+            return any(_is_self_attr(n, "inputs") for root in nodes for n in ast.walk(root))
+
+        for fn, scope in cands:
+            if isinstance(fn, ast.Lambda):
+                body, defaults = [fn.body], list(fn.args.defaults) + [d for d in fn.args.kw_defaults if d is not None]
+            else:
+                body, defaults = list(fn.body), list(fn.args.defaults) + [d for d in fn.args.kw_defaults if d is not None]
+            if scope is None:
+                defaults = []        # a method of the class: its defaults are not per-sandbox objects
+            if mentions_queue(body):
+                at_call = True
+            if mentions_queue(defaults):
+                at_creation = True
+                self.notes.append("lookup: a default argument of the installed function holds self.inputs")
+            if scope is not None:
+                own = set()
+                if not isinstance(fn, ast.Lambda):
+                    a = fn.args
+                    own = {x.arg for x in a.posonlyargs + a.args + a.kwonlyargs} | {x.arg for x in (a.vararg, a.kwarg) if x}
+                    for sub in ast.walk(fn):
+                        if isinstance(sub, ast.Name) and isinstance(sub.ctx, (ast.Store, ast.Del)):
+                            own.add(sub.id)
+                free = {n.id for root in body for n in ast.walk(root)
+                        if isinstance(n, ast.Name) and isinstance(n.ctx, ast.Load) and n.id not in own}
+                for name in sorted(free):
+                    vals = [v for v in self._assignments(scope, name) if v is not PARAM]
+                    if any(isinstance(v, ast.AST) and mentions_queue([v]) for v in vals):
+                        at_creation = True
+                        self.notes.append("lookup: free name %r is bound to self.inputs by the enclosing %s" %
+                                          (name, getattr(scope, "name", "scope")))
+        for m in self._inlined:
+            if mentions_queue(m.body):
+                at_call = True
+        if at_call and not at_creation:
+            return "atCall"
+        if at_creation and not at_call:
+            return "atCreation"
+        self.notes.append("lookup: at_call=%s at_creation=%s" % (at_call, at_creation))
+        return "unknown"
+
     def read(self):
         """-> (pop_end, default or None)"""
         cands = self.locate()
+        self._cands = cands
         if not cands:
             self.notes.append("the function installed as input() was not found")
             return "unknown", None
@@ -926,10 +986,11 @@ def _call(events, kind="call"):
 
 
 def probe():
-    """-> {"guard": 4-tuple over OBSERVATIONS or None, "pop_end": front/back/unknown, "default": str or None, "notes": [...]}"""
+    """-> {"guard": 4-tuple over OBSERVATIONS or None, "pop_end": front/back/unknown, "default": str or None,
+    "lookup": atCall/atCreation/unknown, "notes": [...]}"""
     import sandboxio_common as sc
     notes = []
-    out = {"guard": None, "pop_end": "unknown", "default": None, "notes": notes}
+    out = {"guard": None, "pop_end": "unknown", "default": None, "lookup": "unknown", "notes": notes}
     # -- guard: does an execution with / without own text, after one with / without text, lengthen the line view?
     own_texts = ["y\n", "y", " ", "\n", "\x0c", "a\n\nb \n", "\xa0\n"]
     prior_texts = ["x\n", " "]
@@ -991,6 +1052,36 @@ def probe():
             notes.append("default not uniform: %s" % sorted(vals)[:4])
     except Exception as e:  # noqa
         notes.append("default probe failed: %s: %s" % (type(e).__name__, e))
+    # -- when is the queue resolved: a reference to input() kept from an EARLIER execution (a stored `input`, a helper
+    #    module imported earlier, the setup execution's own binding, a generator that captured it), the queue REBOUND
+    #    in between (clear_input / set_input(None) / callable then None), new values queued afterwards
+    try:
+        seen = set()
+        rebinds = [[{"k": "clear_input"}], [{"k": "set_input", "arg": ["none"], "clear": True}],
+                   [{"k": "set_input", "arg": ["none"], "clear": False}],
+                   [{"k": "set_input", "arg": ["callable", 1], "clear": False}, {"k": "clear_input"}]]
+        for rb in rebinds:
+            for gen in (False, True):
+                first = [["gnew", 1, [["r", "g"], ["r0"], ["r", "h"]], True]] if gen else [["keep", 1], ["kr", 1, "p"]]
+                later = [["gnext", 1, 3]] if gen else [["kr", 1, "p"], ["hr", 1, "q"], ["kr0", 0]]
+                ops = [{"k": "set_input", "arg": ["many", ["a", "b", "c"]], "clear": True}, _call(first)] + rb + \
+                      [{"k": "queue_input", "items": ["d", "e"]}, _call(later, "eval" if gen else "call")]
+                obs, _ctx, student = sc.run_real({"ops": ops})
+                got, left = student[-1], obs[-1]["inputs"]
+                if any(x["err"] for x in obs) or got is None or len(got) != 3:
+                    seen.add("unknown")
+                elif got[:2] == ["d", "e"] and got[2] not in ("a", "b", "c", "d", "e") and left == ["q"] \
+                        and obs[-1]["last_in"] == got:
+                    seen.add("atCall")
+                elif "d" not in got and "e" not in got and left == ["q", "d", "e"]:
+                    seen.add("atCreation")
+                else:
+                    seen.add("unknown")
+        out["lookup"] = seen.pop() if len(seen) == 1 else "unknown"
+        if seen:
+            notes.append("queue lookup not uniform")
+    except Exception as e:  # noqa
+        notes.append("lookup probe failed: %s: %s" % (type(e).__name__, e))
     return out
 
 
@@ -1030,8 +1121,13 @@ def facts(use_probe=True):
     except Exception as e:  # noqa
         pop_read, default_read = "unknown", None
         tr.notes.append("reader failed: %s: %s" % (type(e).__name__, e))
+    try:
+        lookup_read = tr.read_lookup()
+    except Exception as e:  # noqa
+        lookup_read = "unknown"
+        tr.notes.append("lookup reader failed: %s: %s" % (type(e).__name__, e))
     notes += ["tracker: " + n for n in tr.notes]
-    measured = probe() if use_probe else {"guard": None, "pop_end": "unknown", "default": None, "notes": ["probe off"]}
+    measured = probe() if use_probe else {"guard": None, "pop_end": "unknown", "default": None, "lookup": "unknown", "notes": ["probe off"]}
     notes += ["probe: " + n for n in measured["notes"]]
 
     read_table = b_table(guard_read)
@@ -1044,11 +1140,12 @@ def facts(use_probe=True):
         guard = guard_read
     pop_end, pop_src = combine(pop_read, measured["pop_end"], "unknown", "pop end", notes)
     default, default_src = combine(default_read, measured["default"], None, "default", notes)
+    lookup, lookup_src = combine(lookup_read, measured["lookup"], "unknown", "queue lookup", notes)
     return {"guard": guard, "guard_read": b_text(guard_read), "guard_source": guard_src,
             "guard_table": None if table is None else ["prior=%d own=%d -> %d" % (p, o, v)
                                                        for (p, o), v in zip(OBSERVATIONS, table)],
             "pop_end": pop_end, "pop_source": pop_src, "default": default, "default_source": default_src,
-            "notes": notes}
+            "lookup": lookup, "lookup_source": lookup_src, "notes": notes}
 
 
 def _ascii(text):
@@ -1079,6 +1176,12 @@ def translate():
         "  | front | back | unknown",
         "  deriving Repr, DecidableEq",
         "",
+        "/-- When the mocked `input` resolves the sandbox's queue (`self.inputs`): each time it is called, or once when",
+        "it is created (then a reference to `input` kept from an earlier execution serves a stale object). -/",
+        "inductive Lookup where",
+        "  | atCall | atCreation | unknown",
+        "  deriving Repr, DecidableEq",
+        "",
         "-- " + f["guard_source"] + "; as read: " + _ascii(f["guard_read"])[:200],
         "def appendGuard : GuardExpr := %s" % b_lean(guard),
         "-- " + f["pop_source"],
@@ -1086,6 +1189,8 @@ def translate():
         "-- " + f["default_source"],
         "def defaultInput : String := %s" % lean_str(default if default is not None else ""),
         "def defaultKnown : Bool := %s" % ("true" if default is not None else "false"),
+        "-- " + f["lookup_source"],
+        "def queueLookup : Lookup := .%s" % f["lookup"],
         "",
         "end Pedal.Gen.SandboxIO",
         "",
@@ -1094,7 +1199,8 @@ def translate():
     return {"file": os.path.relpath(OUT, LEAN_DIR), "sha1": hashlib.sha1(src.encode()).hexdigest()[:12],
             "changed": changed, "guard": b_text(guard), "guard_read": f["guard_read"], "guard_source": f["guard_source"],
             "guard_table": f["guard_table"], "pop_end": pop_end, "pop_source": f["pop_source"], "default": default,
-            "default_source": f["default_source"], "notes": f["notes"]}
+            "default_source": f["default_source"], "lookup": f["lookup"], "lookup_source": f["lookup_source"],
+            "notes": f["notes"]}
 
 
 if __name__ == "__main__":
